@@ -446,10 +446,64 @@ def c02(ctx):
         elif open(out, "rb").read() != lsrc_b:
             viol.add("success-with-wrong-output", detail)
         distinct.add(("large", name))
+    # kinds of seed: the same file given twice plus a third one, a named pipe, a block device
+    kind_cases = 0
+    a64 = os.path.join(root, "a64.cba")
+    seed_a, seed_b = W[1] + J[0] + W[2], W[3] + W[3] + W[0]
+    kd = os.path.join(root, "kinds")
+    os.makedirs(kd)
+    for nm, b in (("sa.bin", seed_a), ("sb.bin", seed_b)):
+        with open(os.path.join(kd, nm), "wb") as f:
+            f.write(b)
+    specs = [("same-seed-twice-plus-one", ["--seed", os.path.join(kd, "sa.bin"), "--seed", os.path.join(kd, "sa.bin"), "--seed", os.path.join(kd, "sb.bin")], None)]
+    fifo = os.path.join(kd, "seed.fifo")
+    os.mkfifo(fifo)
+    specs.append(("seed-is-a-named-pipe", ["--seed", fifo, "--seed", os.path.join(kd, "sb.bin")], (fifo, seed_a)))
+    loop = None
+    if loop_available(root):
+        loop = Loop(kd, size=8192, content=seed_b + J[1] + seed_a)
+        specs.append(("seed-is-a-block-device", ["--seed", loop.path], None))
+    try:
+        for name, sargs, feed in specs:
+            out = os.path.join(kd, name + ".out")
+            p = subprocess.Popen([bita, "clone"] + sargs + [a64, out], env=env(), stdin=subprocess.DEVNULL, stdout=subprocess.PIPE, stderr=subprocess.PIPE)
+            if feed is not None:
+                import threading
+
+                def w(path=feed[0], data=feed[1]):
+                    try:
+                        with open(path, "wb") as f:
+                            f.write(data)
+                    except OSError:
+                        pass
+                th = threading.Thread(target=w, daemon=True)
+                th.start()
+            try:
+                so, se = p.communicate(timeout=60)
+            except subprocess.TimeoutExpired:
+                p.kill()
+                so, se = p.communicate()
+            if feed is not None:
+                try:
+                    fd = os.open(feed[0], os.O_RDONLY | os.O_NONBLOCK)
+                    th.join(timeout=2)
+                    os.close(fd)
+                except OSError:
+                    pass
+            kind_cases += 1
+            detail = {"case": name}
+            if p.returncode != 0:
+                viol.add("valid-clone-failed", dict(detail, stderr=se.decode()[-300:]))
+            elif open(out, "rb").read() != source:
+                viol.add("success-with-wrong-output", detail)
+            distinct.add(("kind", name))
+    finally:
+        if loop is not None:
+            loop.close()
     shutil.rmtree(root, ignore_errors=True)
-    cov = {"evaluations": len(cases) + fault_cases + large_cases, "large_chunk_cases": large_cases, "write_fault_cases": fault_cases, "distinct_nontrivial": len(distinct), "exhaustive": True, "samples": samples,
+    cov = {"evaluations": len(cases) + fault_cases + large_cases + kind_cases, "large_chunk_cases": large_cases, "seed_kind_cases": kind_cases, "write_fault_cases": fault_cases, "distinct_nontrivial": len(distinct), "exhaustive": True, "samples": samples,
            "stdin_seed_cases": sum(1 for c in cases if any(k == "-" for k, _ in c[2])),
-           "rule": "real binary, FixedSize(4) archive of a 22-byte source with a duplicate chunk, hash length 64 and 4: every seed of a 7-seed pool (related, unrelated, source itself, empty, shifted by a half word) as stdin seed and as file seed, every ordered pair of 5 seeds as (stdin,file), (file,stdin) and (file,file), one triple; oracle: exit 0 and output == source; plus seeded clones of a 16-chunk source under a file size limit at every chunk boundary (writes beyond it fail with EFBIG) x 3 seed variants x {new, existing output}: reported success implies output == source; plus a source of 3 MiB chunks (more than one write(2) takes) cloned with a seed file, a stdin seed and no seed; non-trivial = distinct seed configurations that ran to the end"}
+           "rule": "real binary, FixedSize(4) archive of a 22-byte source with a duplicate chunk, hash length 64 and 4: every seed of a 7-seed pool (related, unrelated, source itself, empty, shifted by a half word) as stdin seed and as file seed, every ordered pair of 5 seeds as (stdin,file), (file,stdin) and (file,file), one triple; oracle: exit 0 and output == source; plus seeded clones of a 16-chunk source under a file size limit at every chunk boundary (writes beyond it fail with EFBIG) x 3 seed variants x {new, existing output}: reported success implies output == source; plus a source of 3 MiB chunks (more than one write(2) takes) cloned with a seed file, a stdin seed and no seed; the same seed file given twice plus a third, a seed that is a named pipe, a seed that is a loop block device; non-trivial = distinct seed configurations that ran to the end"}
     return result(ctx["pid"], "exploration", cov, viol, t0, ["A5"])
 
 
